@@ -752,6 +752,11 @@ func (val Value) Modulo(other Value) Value {
 		return val.Multiply(other)
 	}
 
+	if val.IsNull() || other.IsNull() {
+		// (like the other arithmetic operations, which reject null operands)
+		panic("attempt to compute modulo of a null value")
+	}
+
 	if other.RawEquals(Zero) {
 		return val
 	}
